@@ -86,7 +86,7 @@ pub struct ClientCapabilities { _p: () }
 pub mod lsp_types { pub use super::TextDocumentSyncOptions; }
 
 // ---- the ghost model ------------------------------------------------------------------------------------------------------------------------------
-/// one call on the analysis: `update_file_by_uri(uri, Some(text))` = (uri, Some(text)); `remove_file_by_uri(uri)` / `update_file_by_uri(uri, None)` = (uri, None)
+/// one call on the analysis: `update_file_by_uri(uri, Some(text))` = (uri, Some(text)); `remove_file_by_uri(uri)` = (uri, None)
 pub type Eff = (Uri, Option<Seq<char>>);
 
 /// What the main loop and the tasks it spawns have done to the analysis.
@@ -210,10 +210,11 @@ impl EmmyLuaAnalysis {
 }
 impl RwLockWriteGuard<EmmyLuaAnalysis> {
     /// THE call the property is about: the analysis gets `text` for `uri` (vfs set_file_content + re-index). Logged in call order on the main
-    /// loop, as a deferred effect inside a spawned task.
+    /// loop, as a deferred effect inside a spawned task. (`text == None` empties the document but keeps its file id: no handler under proof
+    /// does that, the shim says nothing about it.)
     #[verifier::external_body]
     pub fn update_file_by_uri(&mut self, uri: &Uri, text: Option<String>, st: &mut Shared) -> (r: Option<FileId>)
-        ensures effect(old(st).g@, final(st).g@, (*uri, text_view(text))),
+        ensures text is Some ==> effect(old(st).g@, final(st).g@, (*uri, text_view(text))),
     { unimplemented!() }
     /// removes the document from the vfs and the index (a no-op on an unknown uri, logged all the same: afterwards the analysis has no text for it)
     #[verifier::external_body]
